@@ -201,7 +201,8 @@ def check(repo: Repo, rep: Report) -> None:
     calls = [s for s in sites(sub) if is_subscribe_call(s.node)]
     rep.require(len(calls) == 1, "source.subscribe in observe_on_")
     c = calls[0].node
-    a0 = c.args[0] if c.args else None
+    from ..rules import inline_locals as _inl
+    a0 = _inl(sub, c.args[0]) if c.args else None
     ok = isinstance(a0, ast.Call) and call_name(a0) == "ObserveOnObserver" and [u(x) for x in a0.args] == ["scheduler", sub.params[0]]
     rep.ob("Q7-wiring", sub, short(c, 80), ok, "observe_on_ does not subscribe an ObserveOnObserver(scheduler, observer)")
     ok = any(isinstance(s.node, ast.Return) and s.node.value is c for s in sites(sub))
